@@ -15,4 +15,5 @@ INVARIANT SamePartitionCharacterised
 INVARIANT SamePartitionIsEquivalence
 INVARIANT StrengthIsDegreeOn01
 INVARIANT DirectedIsUndirectedOnSym
+INVARIANT BigClassesCoincide
 CHECK_DEADLOCK FALSE
